@@ -72,7 +72,8 @@ Theorem C01_event_term : forall (erfR : R -> R) opa ns x,
 Proof. exact ev_loglam_Lam. Qed.
 Print Assumptions C01_event_term.
 
-(* 3. exactly 0 at ns = 0 (threshold below 1; N <> 0 so that 0/N is a division) *)
+(* 3. exactly 0 at ns = 0 (threshold below 1).  N <> 0 is a DOMAIN guard: the equation also
+   holds at N = 0 in Coq's totalised division, where the code returns NaN — excluded here *)
 Theorem C01_zero_at_ns0 : forall (erfR : R -> R) opa N (Rs : list R),
   0 < opa < 1 -> N <> 0 -> evaluate_value (RNum erfR) opa N 0 Rs = 0.
 Proof. intros erfR opa N Rs H _. exact (value_zero_at_ns0 erfR opa N Rs H). Qed.
@@ -120,17 +121,21 @@ Theorem C01_sob_ratio : forall (erfR : R -> R) z s b,
 Proof. exact sob_ratio_spec. Qed.
 Print Assumptions C01_sob_ratio.
 
-(* single ratio / product of ratios, no source weighting: the chain
+(* single ratio / product of ratios, no source weighting (every row of the values
+   array counts as one event, N' = number of rows — with one source that is the
+   number of selected events; with several sources and no weighting it is what
+   the code does, not the documented formula): the chain
    PDF values -> ratios -> products -> X_i -> value is the manual's formula on
    the per-row products of s/b *)
 Theorem C01_chain_plain : forall (erfR : R -> R) opa N ns a_k n_sel src_idxs evt_idxs
     (f0 : rfactor) (fs : list rfactor),
   (length (snd (fst f0)) = length evt_idxs /\ length (snd f0) = n_sel) ->
   List.Forall (fun f : rfactor => length (snd (fst f)) = length evt_idxs /\ length (snd f) = n_sel) fs ->
+  List.Forall (fun e => (e < n_sel)%nat) evt_idxs ->      (* indices in range: no IndexError / default read *)
   pipe_value (RNum erfR) opa N ns false a_k n_sel src_idxs evt_idxs f0 fs
   = logLambda_manual (opa - 1) N ns
       (map (fun i => row_ratio i (nth i evt_idxs 0%nat) f0 fs) (seq 0 (length evt_idxs))).
-Proof. exact pipe_value_plain. Qed.
+Proof. exact pipe_value_plain_guarded. Qed.
 Print Assumptions C01_chain_plain.
 
 (* source weighting, GIVEN that the (source,event) table lists every pair at
@@ -149,6 +154,9 @@ Theorem C01_chain_stacked : forall (erfR : R -> R) opa N ns a_k n_sel src_idxs e
   (length (snd (fst f0)) = length evt_idxs /\ length (snd f0) = n_sel) ->
   List.Forall (fun f : rfactor => length (snd (fst f)) = length evt_idxs /\ length (snd f) = n_sel) fs ->
   length src_idxs = length evt_idxs -> NoDup (combine src_idxs evt_idxs) ->
+  List.Forall (fun e => (e < n_sel)%nat) evt_idxs ->         (* event indices in range *)
+  List.Forall (fun k => (k < length a_k)%nat) src_idxs ->    (* one weight per listed source *)
+  Rsum a_k <> 0 ->                                           (* the code divides by the weight sum *)
   pipe_value (RNum erfR) opa N ns true a_k n_sel src_idxs evt_idxs f0 fs
   = logLambda_manual (opa - 1) N ns
       (map (stacked_spec a_k
@@ -156,7 +164,7 @@ Theorem C01_chain_stacked : forall (erfR : R -> R) opa N ns a_k n_sel src_idxs e
                  (map (fun i => row_ratio i (nth i evt_idxs 0%nat) f0 fs)
                       (seq 0 (length evt_idxs)))))
            (seq 0 n_sel)).
-Proof. exact pipe_value_stacked. Qed.
+Proof. exact pipe_value_stacked_guarded. Qed.
 Print Assumptions C01_chain_stacked.
 
 (* without that invariant the stacked ratio is NOT the weighted mean: a pair
@@ -171,10 +179,13 @@ Print Assumptions C01_stacked_duplicate_pair_refuted.
 
 (* 7. several datasets: the sum of the single-dataset formulas at ns * f_j *)
 Theorem C01_multi_dataset : forall (erfR : R -> R) opa ns (f : list R) (ds : list (R * list R)),
+  length f = length ds ->                  (* one weight factor per dataset (else the code raises) *)
+  List.Forall (fun p : R * (R * list R) => 0 < fst (snd p) /\ ns * fst p < fst (snd p)) (combine f ds) ->
+                                           (* every dataset inside its domain: N_j > 0, ns f_j < N_j *)
   multi_value (RNum erfR) opa ns f ds
   = Rsum (map (fun p => logLambda_manual (opa - 1) (fst (snd p)) (ns * fst p) (snd (snd p)))
               (combine f ds)).
-Proof. exact multi_value_spec. Qed.
+Proof. exact multi_value_spec_guarded. Qed.
 Print Assumptions C01_multi_dataset.
 
 (* ======================================================================== *)
@@ -223,6 +234,19 @@ Theorem C01_default_counts_removed : forall (E : Type) (st0 : tcounts E) (ops : 
   /\ tc_n_pure_bkg st = Some (Z.of_nat (length raw - length (f raw))).
 Proof. exact tc_default_counts_removed. Qed.
 Print Assumptions C01_default_counts_removed.
+
+(* the public `events` setter (a second writer of N'): N' and N - N' follow, N does not move *)
+Theorem C01_events_setter : forall (E : Type) (st : tcounts E) (evs : list E),
+  let st' := tc_step st (TSetEvents evs) in
+  tc_n_events st' = tc_n_events st
+  /\ tc_events st' = evs
+  /\ tc_n_selected st' = Z.of_nat (length evs)
+  /\ tc_n_pure_bkg st' = match tc_n_events st with
+                         | Some n => Some (n - Z.of_nat (length evs))%Z
+                         | None => None
+                         end.
+Proof. exact tc_events_setter. Qed.
+Print Assumptions C01_events_setter.
 
 (* evaluate on the manager uses exactly these current counts *)
 Theorem C01_value_on_manager : forall (E : Type) (erfR : R -> R) (st0 : tcounts E)
@@ -357,4 +381,27 @@ Proof.
   repeat split; try lra.
   - repeat constructor; cbn; intuition discriminate.
   - apply perm_trans with [0; 5; 2]; [apply perm_skip, perm_swap|apply perm_swap].
+Qed.
+
+(* non-vacuity on the MODEL: at the code's threshold 1e-3, N = 10, ns = 9.995 the code's mask puts
+   the R = 0 event into the Taylor branch and the R = 2 event into the logarithm branch, and the
+   guarded chain / multi-dataset hypotheses are satisfiable *)
+Example C01_nonvacuous_model : forall (erfR : R -> R),
+  ev_stable (RNum erfR) (1 / 1000) (9995 / 1000) (Xof 10 0) = false
+  /\ ev_stable (RNum erfR) (1 / 1000) (9995 / 1000) (Xof 10 2) = true
+  /\ List.Forall (fun e => (e < 2)%nat) [0; 1; 1]%nat
+  /\ List.Forall (fun k => (k < length [1; 3])%nat) [0; 0; 1]%nat
+  /\ Rsum [1; 3] <> 0
+  /\ length [1 / 4; 3 / 4] = length [(10, [2; 0]); (20, @nil R)]
+  /\ List.Forall (fun p : R * (R * list R) => 0 < fst (snd p) /\ 5 * fst p < fst (snd p))
+                  (combine [1 / 4; 3 / 4] [(10, [2; 0]); (20, @nil R)]).
+Proof.
+  intros erfR. unfold ev_stable, ev_alpha_i, Xof.
+  destruct (KV_m_stable erfR (k_alpha_i (RNum erfR) (9995 / 1000) ((0 - 1) / 10)) (k_alpha (RNum erfR) (1 / 1000))) as [_ H0].
+  destruct (KV_m_stable erfR (k_alpha_i (RNum erfR) (9995 / 1000) ((2 - 1) / 10)) (k_alpha (RNum erfR) (1 / 1000))) as [H2 _].
+  rewrite !KV_alpha_i, !KV_alpha in *.
+  split; [apply H0; lra|]. split; [apply H2; lra|].
+  split; [repeat constructor|]. split; [repeat constructor|].
+  split; [unfold Rsum; cbn; lra|]. split; [reflexivity|].
+  cbn [combine]. repeat constructor; cbn [fst snd]; lra.
 Qed.
